@@ -65,6 +65,10 @@ def check(run, prog, tier):
     rule_B14(run, prog)
     run.rule("C04-B13", "the stack of basis ids and the stack of transformation matrices are pushed and popped together", minimum=3)
     rule_B13(run, prog)
+    run.rule("C04-B15", "entering a basis context either succeeds or leaves the manager as it was: everything __enter__ asks of the "
+                        "operator it was given (its basis, its diagonalisation) comes before the first change of the manager's "
+                        "bookkeeping - `with` does not call __exit__ when __enter__ raises", minimum=2)
+    rule_B15(run, prog)
     run.rule("C04-B12", "arithmetic between basis-managed objects reads the other operand through its managed property", minimum=2)
     rule_B12(run, prog)
     run.rule("C04-B11", "a managed object created inside a method from the data of self owns its array (objects created inside a "
@@ -107,6 +111,57 @@ def _is_toplevel_stmt_containing(func, pred):
 
 def _attr_call(n, attr_chain_suffix):
     return isinstance(n, ast.Call) and (dotted(n.func) or "").endswith(attr_chain_suffix)
+
+
+def rule_B15(run, prog):
+    """'Leaving the block - normally or by an exception - restores every object ...': an exception raised *inside __enter__*
+    (an operator without get_diagonalization_matrix, a failing decomposition) is not followed by __exit__.  Statements of
+    __enter__ in order: a 'fallible' statement calls a method of self.op or manager.transform_to_current_basis; an 'effect'
+    assigns an attribute of self.manager, calls a store_*/set_new_basis/push method of the manager or appends to a backup
+    list of the context object.  No fallible statement after the first effect."""
+    rid = "C04-B15"
+    f = prog.func("quantarhei.core.managers.eigenbasis_of.__enter__")
+    prog.consulted.add(f.relpath)
+    first_effect = None
+    n = 0
+    flat = []
+
+    def flatten(stmts):
+        for st in stmts:
+            if isinstance(st, (ast.If, ast.With, ast.For, ast.While, ast.Try)):
+                # the test of an `if` may itself call the operator
+                if isinstance(st, (ast.If, ast.While)):
+                    flat.append(ast.Expr(value=st.test, lineno=st.lineno, col_offset=st.col_offset))
+                for fld in ("body", "orelse", "finalbody"):
+                    flatten(getattr(st, fld, []) or [])
+            else:
+                flat.append(st)
+    flatten(f.node.body)
+    for st in flat:
+        eff = fal = None
+        for x in ast.walk(st):
+            if isinstance(x, ast.Assign) and any(isinstance(t_, ast.Attribute) and norm(t_.value) == "self.manager" for t_ in x.targets):
+                eff = x
+            if isinstance(x, ast.Call) and isinstance(x.func, ast.Attribute):
+                recv = norm(x.func.value)
+                if recv == "self.manager" and (x.func.attr.startswith("store_") or x.func.attr in ("set_new_basis",)):
+                    eff = x
+                if recv.startswith("self._") and x.func.attr in ("append", "insert"):
+                    eff = x
+                if recv == "self.op" or (recv == "self.manager" and x.func.attr == "transform_to_current_basis"):
+                    fal = x
+        if fal is not None:
+            n += 1
+            run.obligation(rid, f.short, first_effect is None, key="fallible:" + norm(fal)[:50],
+                           message="__enter__ calls `%s` after it has changed the bookkeeping (`%s`): when the call raises - an "
+                                   "operator that cannot be diagonalised - no __exit__ follows, the manager stays 'inside a basis "
+                                   "context' with this operator as the one that defines the basis, and functions that refuse to run "
+                                   "inside a context refuse from then on" % (norm(fal)[:60], norm(first_effect)[:60] if first_effect is not None else ""),
+                           loc=f.loc(fal))
+        if eff is not None and first_effect is None:
+            first_effect = eff
+    if n < 2:
+        raise AnalysisError("C04-B15: only %d calls on the operator found in eigenbasis_of.__enter__" % n)
 
 
 def rule_B1(run, prog):
